@@ -875,7 +875,7 @@ class EventListenerPool(ProcessGroupBase):
     def handle_rejected(self, event):
         process = event.process
         procs = self.processes.values()
-        if process in procs: # this is one of our processes
+        if any(process is p for p in procs): # this is one of our processes
             # rebuffer the event
             self._acceptEvent(event.event, head=True)
 
